@@ -92,9 +92,12 @@ pub fn jobs(thorough: bool) -> (Vec<Job>, Vec<CrateSpec>) {
             }
             for i in 0..all.len() {
                 v.push(all.iter().enumerate().filter(|(j, _)| *j != i).map(|(_, x)| x.clone()).collect());
-                // every pair of features (2-way interaction coverage)
+                // every pair and every triple of features (3-way interaction coverage)
                 for j in (i + 1)..all.len() {
                     v.push(vec![all[i].clone(), all[j].clone()]);
+                    for k in (j + 1)..all.len() {
+                        v.push(vec![all[i].clone(), all[j].clone(), all[k].clone()]);
+                    }
                 }
             }
             v
@@ -161,7 +164,7 @@ fn first_error(stderr: &str) -> String {
 pub fn run(ctx: &'static Ctx) -> (&'static str, Value, Vec<&'static str>) {
     let thorough = ctx.tier.thorough();
     let (js, specs) = jobs(thorough);
-    let workers = if thorough { 8 } else { 6 };
+    let workers = if thorough { 8 } else { 8 };
     let pool = rayon::ThreadPoolBuilder::new().num_threads(workers).build().unwrap_or_else(|e| machinery(&format!("thread pool: {e}")));
     let next_dir = AtomicUsize::new(0);
     thread_local! { static DIR: std::cell::Cell<usize> = const { std::cell::Cell::new(usize::MAX) }; }
@@ -207,7 +210,7 @@ pub fn run(ctx: &'static Ctx) -> (&'static str, Value, Vec<&'static str>) {
             .reduce(Stats::new, Stats::merge)
     });
     let cov = stats.coverage(
-        "features derived from the four manifests ([features] keys + optional dependencies); thorough = the complete powerset per crate (model 2^3, decode 2^2, data 2^11 incl. verif-hooks, facade 2^3), quick = full powersets of the small crates and, for nexrad-data, the named-feature powerset + every optional dependency alone and on top of the named features + every pair of features + every all-but-one set; the library is always checked alone (--lib) and the examples in a separate invocation, because dev-dependency feature unification can mask a missing cfg gate; plus default and --all-features; examples are checked whenever their required-features are enabled. Oracle = exit status of `cargo check --offline`. non-trivial = >= 2 features enabled",
+        "features derived from the four manifests ([features] keys + optional dependencies); thorough = the complete powerset per crate (model 2^3, decode 2^2, data 2^11 incl. verif-hooks, facade 2^3), quick = full powersets of the small crates and, for nexrad-data, the named-feature powerset + every optional dependency alone and on top of the named features + every pair and every triple of features (3-way interaction coverage) + every all-but-one set; the library is always checked alone (--lib) and the examples in a separate invocation, because dev-dependency feature unification can mask a missing cfg gate; plus default and --all-features; examples are checked whenever their required-features are enabled. Oracle = exit status of `cargo check --offline`. non-trivial = >= 2 features enabled",
         thorough,
         json!({"crates": specs.iter().map(|s| json!({"name": s.name, "named": s.named, "optional": s.optional, "examples": s.examples.iter().map(|e| e.0.clone()).collect::<Vec<_>>()})).collect::<Vec<_>>(), "invocations": js.len(), "parallel_target_dirs": workers}),
     );
